@@ -132,6 +132,19 @@ def run(ctx):
         sp['opts']['ops'] = gen_ops(sp, rng, len(sp['opts']['grids']))
         sp['opts']['ops'] = [o for o in sp['opts']['ops'] if o['op'] not in ('S', 'F', 'J')]
         specs.append(sp)
+    # the user holds ONE frame of positional prices (numeric index) and uses it for split set-ups on several horizons of the same length
+    fr = gen.gen_many(ctx.seed, n // 5, dict(CFG, p_coarse=0.0, p_periodic=0.0, freqs=['h'], tzs=[None], T=(6, 9), p_cap_dict=0.0, p_cap_key=0.0,
+                                             kinds={'SimpleContract': 3, 'Transport': 2, 'Storage': 2}), 'c10fr_')
+    for sp in fr:
+        rng = random.Random(str(sp['seed']) + '/ops')
+        gs = [g for g in grid_variants(sp, rng) if g['T'] == sp['grid']['T'] and g['freq'] == sp['grid']['freq']]
+        # another horizon of the same length: shifted by a whole number of days
+        g_next = dict(sp['grid'], start=gen.fmt(pd.Timestamp(sp['grid']['start']) + pd.Timedelta(days=2)), end=gen.fmt(pd.Timestamp(sp['grid']['end']) + pd.Timedelta(days=2)))
+        gs.append(g_next)
+        sp['opts']['grids'] = gs
+        sp['opts']['price_frame'] = True
+        sp['opts']['ops'] = [{'op': 'S', 'g': gi, 'p': 0, 'size': '3h'} for gi in [0, len(gs) - 1, 0] + list(range(1, len(gs) - 1))]
+        specs.append(sp)
     specs = ctx.specs(specs)
     res = C.run_impl('purity', specs)
     for sp, o in zip(specs, res):
